@@ -54,16 +54,18 @@ Definition pl_out_errs (s : pl_sst) : N := errs (ss_out chain s).
 Definition pl_hist (s : pl_sst) : list (N * list path) := ss_hist chain s.
 Definition pl_nlabels (s : pl_sst) : nat := length (ss_lab chain s).
 Definition pl_drained (s : pl_sst) : bool := drained chain s.
+(* the prefix id of an update sender prefix (inverse of Pipeline.upfx) *)
+Definition pl_pfx_id (x : UpdateSender.pfx) : N := (UpdateSender.x_addr x * 64 + UpdateSender.x_len x)%N.
 Definition pl_pending (s : pl_sst) : list (N * N * list N) :=
-  map (fun e => (UpdateSender.p_tag (UpdateSender.e_path e), UpdateSender.p_pid (UpdateSender.e_path e), map UpdateSender.x_addr (UpdateSender.e_pfxs e))) (UpdateSender.queue (ss_us chain s)).
+  map (fun e => (UpdateSender.p_tag (UpdateSender.e_path e), UpdateSender.p_pid (UpdateSender.e_path e), map pl_pfx_id (UpdateSender.e_pfxs e))) (UpdateSender.queue (ss_us chain s)).
 Definition pl_inflight (s : pl_sst) : bool :=
   match UpdateSender.inflight (ss_us chain s) with Some _ => true | None => false end.
 
 (* the wire, oldest message first: (kind, tag, path id, prefixes); kind 0 announcement, 1 withdrawal, 2 End-of-RIB *)
 Definition pl_msg (m : UpdateSender.msg) : N * N * N * list N :=
   match m with
-  | UpdateSender.MAnn tag pid _ xs => (0%N, tag, pid, map UpdateSender.x_addr xs)
-  | UpdateSender.MWd x pid => (1%N, 0%N, pid, [UpdateSender.x_addr x])
+  | UpdateSender.MAnn tag pid _ xs => (0%N, tag, pid, map pl_pfx_id xs)
+  | UpdateSender.MWd x pid => (1%N, 0%N, pid, [pl_pfx_id x])
   | UpdateSender.MEoR => (2%N, 0%N, 0%N, [])
   end.
 Definition pl_wire (s : pl_sst) : list (N * N * N * list N) := rev (map pl_msg (UpdateSender.wire (ss_us chain s))).
